@@ -9,7 +9,34 @@ from ._common import arm_light
 
 P = 'C15'
 tr = None
-SCALAR_FUNS = [('one', lambda t: 1), ('id', lambda t: t), ('sq', lambda t: t ** 2), ('sin', lambda t: np.sin(t)), ('cos', lambda t: np.cos(t)), ('gauss', lambda t: np.exp(-t ** 2))]
+SCALAR_FUNS = [('one', lambda t: 1), ('id', lambda t: t), ('sq', lambda t: t ** 2), ('sin', lambda t: np.sin(t)), ('cos', lambda t: np.cos(t)), ('gauss', lambda t: np.exp(-t ** 2)),
+               # user lambdas whose return TYPE depends on the argument (an int on one branch, a float on the other)
+               ('hinge', lambda t: max(0, t)), ('relu0', lambda t: 0 if t < 0 else t), ('step', lambda t: 1 if t > 0.3 else 0.25 * t)]
+
+
+def point_only_function():
+    """a user-defined basis function (subclass of the library's Function) written for single points: it reduces over the
+    coordinates of its argument.  The library evaluates basis functions snapshot by snapshot, which is all such a function supports."""
+    class RadialPoint(tr.Function):
+        def __init__(self, scale, dimension=None):
+            super(RadialPoint, self).__init__(dimension)
+            self.scale = scale
+
+        def __call__(self, t):
+            return float(np.exp(-self.scale * np.sum(np.asarray(t, dtype=float) ** 2)))
+
+        def partial(self, t, direction):
+            return -2.0 * self.scale * t[direction] * self(t)
+
+        def partial2(self, t, direction1, direction2):
+            return (4.0 * self.scale ** 2 * t[direction1] * t[direction2] - (2.0 * self.scale if direction1 == direction2 else 0.0)) * self(t)
+
+        def gradient(self, t):
+            return np.array([self.partial(t, k) for k in range(len(t))])
+
+        def hessian(self, t):
+            return np.array([[self.partial2(t, i, j) for j in range(len(t))] for i in range(len(t))])
+    return RadialPoint
 
 
 def setup(ctx):
@@ -21,7 +48,12 @@ def setup(ctx):
 
 def rand_function(rng, d):
     i = int(rng.integers(0, d))
-    k = int(rng.integers(0, 8))
+    k = int(rng.integers(0, 10))
+    if k == 8:  # box functions (overlapping boxes, boxes on different coordinates)
+        a = float(rng.uniform(-1.5, 0.5))
+        return tr.IndicatorFunction(i, a, a + float(rng.uniform(0.5, 2.5)))
+    if k == 9:
+        return point_only_function()(float(rng.uniform(0.2, 1.5)))
     if k == 0:
         return tr.ConstantFunction(i)
     if k == 1:
@@ -39,15 +71,34 @@ def rand_function(rng, d):
     return tr.PeriodicGaussFunction(i, float(rng.uniform(-1, 1)), float(rng.uniform(0.3, 2)))
 
 
+def array_capable(rng, bl, d):
+    """hocur evaluates basis functions on the whole data matrix: point-only user functions are replaced (in place, keeping shared
+    objects shared) for the cross-approximation workloads"""
+    repl = {}
+    for fl in bl:
+        for k, f in enumerate(fl):
+            if type(f).__name__ == 'RadialPoint':
+                if id(f) not in repl:
+                    repl[id(f)] = tr.GaussFunction(int(rng.integers(0, d)), float(rng.uniform(-1, 1)), float(rng.uniform(0.3, 2)))
+                fl[k] = repl[id(f)]
+    return bl
+
+
 def rand_basis(rng, d, duplicates=False):
     p = int(rng.integers(1, 4))
     bl = []
     for _ in range(p):
         n = int(rng.integers(1, 4))
         fl = [rand_function(rng, d) for _ in range(n)]
+        if rng.random() < 0.1:  # a mode made of box functions only
+            fl = [tr.IndicatorFunction(int(rng.integers(0, d)), a, a + float(rng.uniform(0.5, 2.5))) for a in rng.uniform(-1.5, 0.5, size=n)]
         if duplicates and n > 1 and rng.random() < 0.5:
             fl[-1] = fl[0]
         bl.append(fl)
+    if p > 1 and rng.random() < 0.15:
+        # the very same function OBJECTS serve several modes (basis_list = [B0, B1, B0], [B] * p): perfectly legal
+        k = int(rng.integers(1, p))
+        bl[k] = bl[0] if rng.random() < 0.5 else [bl[0][int(rng.integers(0, len(bl[0])))] for _ in range(len(bl[k]))]
     return bl
 
 
@@ -93,13 +144,14 @@ def w_major(ctx, rng, idx):
 def w_hocur(ctx, rng, idx):
     d, m = int(rng.integers(1, 4)), int(rng.integers(1, 7))
     x = gen.data_matrix(rng, (d, m))
-    bl = rand_basis(rng, d, duplicates=(rng.random() < 0.3))
+    bl = array_capable(rng, rand_basis(rng, d, duplicates=(rng.random() < 0.3)), d)
     if idx % 8 == 3:  # data close to a common zero of odd basis functions: every entry of the transformed tensor is tiny in
         x = x * float(10 ** rng.uniform(-7, -3))  # absolute terms (nothing in the statement depends on the scale of the data)
         odd = [lambda i: tr.Identity(i), lambda i: tr.Sin(i, float(rng.uniform(0.5, 2))), lambda i: tr.Monomial(i, int(rng.integers(1, 4)))]
         bl = [[odd[int(rng.integers(0, 3))](int(rng.integers(0, d))) for _ in range(int(rng.integers(1, 4)))] for _ in range(int(rng.integers(2, 4)))]
     if len(bl) < 2:
         bl.append([rand_function(rng, d) for _ in range(int(rng.integers(1, 4)))])
+    bl = array_capable(rng, bl, d)
     cls = monitors_transform.data_tensor_class(x, bl)
     if cls != 'regular':  # zero tensor / no spectral gap: the cross approximation's rank decisions are not determined by the data
         ctx.skip('hocur_data_tensor_' + cls)
